@@ -63,6 +63,8 @@ pub struct Gen<'a> {
     pub allow_witness: bool,
     pub allow_disconnect: bool,
     pub allow_assert: bool,
+    /// reuse witness nodes of the same intended type (shared witness objects)
+    pub share_witness: bool,
     pub cmr_n: usize,
     atom: u64,
 }
@@ -70,7 +72,7 @@ pub struct Gen<'a> {
 impl<'a> Gen<'a> {
     pub fn new(rng: &'a mut Rng, jets: &'a [JetSig], budget: usize) -> Self {
         Gen { rng, nodes: vec![], memo: HashMap::new(), jets, budget, allow_fail: false, allow_witness: true,
-              allow_disconnect: true, allow_assert: true, cmr_n: 8, atom: 0 }
+              allow_disconnect: true, allow_assert: true, share_witness: false, cmr_n: 8, atom: 0 }
     }
     fn push(&mut self, nd: J, key: Option<(Ty, Ty)>) -> usize {
         self.nodes.push(nd);
@@ -177,7 +179,8 @@ impl<'a> Gen<'a> {
                 }
                 11 => {
                     let v = tgt.rand_val(self.rng);
-                    return self.push(json!(["witness", 0, 0, [tgt.to_j(), v]]), None);
+                    let k = if self.share_witness { key } else { None };
+                    return self.push(json!(["witness", 0, 0, [tgt.to_j(), v]]), k);
                 }
                 12 => { self.atom += 1; return self.push(json!(["fail", 0, 0, self.atom]), None); }
                 13 => {
@@ -227,6 +230,47 @@ impl<'a> Gen<'a> {
         }
         json!(out)
     }
+}
+
+/// nodes of an expression E_T : T -> 1 whose source type can only be inferred as T; returns its index (1-based)
+pub fn elim_dag(nodes: &mut Vec<J>, t: &Ty) -> usize {
+    let mut push = |nodes: &mut Vec<J>, nd: J| -> usize { nodes.push(nd); nodes.len() };
+    match t {
+        Ty::Unit => push(nodes, json!(["unit", 0, 0])),
+        Ty::Sum(a, b) => {
+            let i = push(nodes, json!(["iden", 0, 0]));
+            let u = push(nodes, json!(["unit", 0, 0]));
+            let p = push(nodes, json!(["pair", i, u]));
+            let ea = elim_dag(nodes, a);
+            let ta = push(nodes, json!(["take", ea, 0]));
+            let eb = elim_dag(nodes, b);
+            let tb = push(nodes, json!(["take", eb, 0]));
+            let c = push(nodes, json!(["case", ta, tb]));
+            push(nodes, json!(["comp", p, c]))
+        }
+        Ty::Prod(a, b) => {
+            let ea = elim_dag(nodes, a);
+            let ta = push(nodes, json!(["take", ea, 0]));
+            let eb = elim_dag(nodes, b);
+            let db = push(nodes, json!(["drop", eb, 0]));
+            let p = push(nodes, json!(["pair", ta, db]));
+            let u = push(nodes, json!(["unit", 0, 0]));
+            push(nodes, json!(["comp", p, u]))
+        }
+    }
+}
+/// main := comp (pair w1 w2) (comp (pair (take E_T) (drop E_U)) unit): two witnesses whose types the program forces
+pub fn typed_witness_pair(t: &Ty, u: &Ty) -> J {
+    let mut nodes: Vec<J> = vec![json!(["witness", 0, 0]), json!(["witness", 0, 0]), json!(["pair", 1, 2])];
+    let et = elim_dag(&mut nodes, t);
+    nodes.push(json!(["take", et, 0])); let tt = nodes.len();
+    let eu = elim_dag(&mut nodes, u);
+    nodes.push(json!(["drop", eu, 0])); let du = nodes.len();
+    nodes.push(json!(["pair", tt, du])); let p = nodes.len();
+    nodes.push(json!(["unit", 0, 0])); let un = nodes.len();
+    nodes.push(json!(["comp", p, un])); let body = nodes.len();
+    nodes.push(json!(["comp", 3, body]));
+    json!(nodes)
 }
 
 pub fn jet_sigs_core() -> Vec<JetSig> {
